@@ -16,7 +16,8 @@ package facts
 // # Supported subset
 //
 // Types         int, time.Duration → Int;  bool → Bool;  byte/uint8 → UInt8;
-//               []byte, string → Bytes;  [][]byte, []string → List Bytes;  error → Go.Error.
+//               []byte, string → Bytes;  [][]byte, []string → List Bytes;  error → Go.Error;
+//               [][][]byte → List (List Bytes) (only as the operand of `range`).
 //               (machine-integer overflow and the nil/empty distinction of slices are not modelled)
 // Statements    x := e, x = e, x op= e, x++/x-- (each a shadowing `let`); `var x T`;
 //               a, b := f(…) / a, b = e1, e2;  _ = e;
@@ -112,6 +113,15 @@ type Step struct {
 	Defer  bool
 }
 
+// StructLit: a composite literal `&T{F1: e1, …}` / `T{…}` (key = the printed type, with the `&`)
+// rendered through a template; every listed field must be given exactly once, by name. %F1 … are the
+// rendered field values.
+type StructLit struct {
+	Fields map[string]string // field → translator type
+	Tmpl   string
+	Ty     string
+}
+
 // FailMode: the function's Lean type is `Except Ty _`; Panic is the value of a failed bounds test.
 type FailMode struct{ Ty, Panic string }
 
@@ -122,6 +132,11 @@ type FnSpec struct {
 	Lean    string // Lean name of the generated definition
 	Doc     string
 	Binders string            // extra Lean binders, placed first, e.g. "(cb : Cb.Callback)"
+	// Partial: the Lean result is `Option _` even if the body neither indexes nor loops (its Steps can
+	// yield `none`)
+	Partial bool
+	// Captures: Go locals (loop variables) that Vals / Funcs templates refer to on purpose
+	Captures []string
 	// SkipParams: Go parameters of a type outside the subset that Binders / Vals stand in for
 	SkipParams []string
 	// Results overrides the translator types of the Go results (e.g. "unit" for a pointer to a struct
@@ -134,6 +149,10 @@ type FnSpec struct {
 	State   []StateVar        // mutable fields
 	Effects map[string]Effect // call key → effect
 	Steps   map[string]Step   // statement key → templated step
+	Structs map[string]StructLit
+	// IgnoreAssign: assignment targets (keys) whose statements are declared not modelled (time stamps);
+	// they are rendered as a Lean comment
+	IgnoreAssign []string
 	Fail    *FailMode         // nil: `Option _` when the body indexes, plain otherwise
 	// NilResult: a []byte result is rendered as `Option Bytes` (`return nil` = none)
 	NilResult bool
@@ -155,6 +174,9 @@ var bodyLib = map[string][]LibFn{
 	"bytes.ReplaceAll": {
 		{Args: []string{"bytes", "bytes", "bytes"}, Ret: []string{"bytes"}, Lits: map[int]string{1: "\r", 2: ""}, Tmpl: "(Chan.dropCR %0)"},
 	},
+	"strings.Contains": {{Args: []string{"bytes", "bytes"}, Ret: []string{"bool"}, Tmpl: "(isInfix %1 %0)"}},
+	"bytes.Equal":      {{Args: []string{"bytes", "bytes"}, Ret: []string{"bool"}, Tmpl: "(%0 == %1)"}},
+	"bytes.HasSuffix":  {{Args: []string{"bytes", "bytes"}, Ret: []string{"bool"}, Tmpl: "(hasPrefix (List.reverse %0) (List.reverse %1))"}},
 	"bytes.HasPrefix":  {{Args: []string{"bytes", "bytes"}, Ret: []string{"bool"}, Tmpl: "(hasPrefix %0 %1)"}},
 	"bytes.TrimPrefix": {{Args: []string{"bytes", "bytes"}, Ret: []string{"bytes"}, Tmpl: "(trimPrefix %0 %1)"}},
 	"bytes.TrimSuffix": {{Args: []string{"bytes", "bytes"}, Ret: []string{"bytes"}, Tmpl: "(trimSuffix %0 %1)"}},
@@ -214,6 +236,8 @@ func leanTy(ty string) string {
 		return "Bytes"
 	case "list":
 		return "List Bytes"
+	case "list2":
+		return "List (List Bytes)"
 	case "error":
 		return "Go.Error"
 	case "unit":
@@ -223,6 +247,10 @@ func leanTy(ty string) string {
 	}
 	if strings.HasPrefix(ty, "opaque:") {
 		return strings.TrimPrefix(ty, "opaque:")
+	}
+	if strings.HasPrefix(ty, "olist:") {
+		// a slice or a map ranged over in an order the FnSpec supplies; elements are opaque
+		return "List (" + strings.TrimPrefix(ty, "olist:") + ")"
 	}
 	return "unsupported_type"
 }
@@ -356,6 +384,8 @@ func goTypeOf(e ast.Expr) string {
 			return "bytes"
 		case "bytes":
 			return "list"
+		case "list":
+			return "list2"
 		}
 	}
 	return ""
@@ -503,6 +533,9 @@ func (t *bodyTr) expr(e ast.Expr, sc bscope, want string) Val {
 		return Val{s.Lean, s.Ty}
 	}
 	if v, ok := t.spec.Vals[key]; ok {
+		return v
+	}
+	if v, ok := t.structLit(e, sc); ok {
 		return v
 	}
 	switch x := e.(type) {
@@ -656,6 +689,45 @@ func (t *bodyTr) expr(e ast.Expr, sc bscope, want string) Val {
 		return Val{"(Go.slice " + b.Lean + " " + lo.Lean + " " + hi.Lean + ")", b.Ty}
 	}
 	return Val{t.unsupported("expression"), want}
+}
+
+// structLit renders `&T{…}` / `T{…}` listed in FnSpec.Structs
+func (t *bodyTr) structLit(e ast.Expr, sc bscope) (Val, bool) {
+	prefix := ""
+	if u, ok := e.(*ast.UnaryExpr); ok && u.Op == token.AND {
+		prefix, e = "&", u.X
+	}
+	cl, ok := e.(*ast.CompositeLit)
+	if !ok || cl.Type == nil {
+		return Val{}, false
+	}
+	sl, ok := t.spec.Structs[prefix+t.exprKey(cl.Type)]
+	if !ok {
+		return Val{}, false
+	}
+	out := sl.Tmpl
+	seen := map[string]bool{}
+	for _, el := range cl.Elts {
+		kv, ok := el.(*ast.KeyValueExpr)
+		if !ok {
+			return Val{t.unsupported("struct_positional_field"), sl.Ty}, true
+		}
+		name := t.exprKey(kv.Key)
+		ty, ok := sl.Fields[name]
+		if !ok || seen[name] {
+			return Val{t.unsupported("struct_field_" + LeanIdentPlain(name)), sl.Ty}, true
+		}
+		seen[name] = true
+		v := t.expr(kv.Value, sc, ty)
+		if v.Ty != ty {
+			v.Lean = t.unsupported("struct_field_type")
+		}
+		out = strings.ReplaceAll(out, "%"+name, v.Lean)
+	}
+	if len(seen) != len(sl.Fields) {
+		return Val{t.unsupported("struct_field_missing"), sl.Ty}, true
+	}
+	return Val{out, sl.Ty}, true
 }
 
 // LeanIdentPlain: ASCII letters/digits/underscore only, no quotes (for use inside unsupported_… names)
@@ -1356,6 +1428,14 @@ func (t *bodyTr) assign(x *ast.AssignStmt, sc bscope, ctx bctx, ind string, rest
 	bad := func(kind string) string {
 		return ind + "let _ := " + t.unsupported(kind) + "\n" + rest(sc, ind)
 	}
+	if x.Tok == token.ASSIGN && len(x.Lhs) == 1 {
+		k := t.exprKey(x.Lhs[0])
+		for _, ig := range t.spec.IgnoreAssign {
+			if ig == k {
+				return fmt.Sprintf("%s-- %s = … (declared not modelled)\n", ind, k) + rest(sc, ind)
+			}
+		}
+	}
 	// op-assign
 	if x.Tok != token.ASSIGN && x.Tok != token.DEFINE {
 		ops := map[token.Token]token.Token{token.ADD_ASSIGN: token.ADD, token.SUB_ASSIGN: token.SUB, token.MUL_ASSIGN: token.MUL}
@@ -1799,7 +1879,7 @@ func (t *bodyTr) forStmt(x *ast.ForStmt, sc bscope, ctx bctx, ind string, rest f
 	fmt.Fprintf(&d, "  if !%s then .brk %s else\n", c.Lean, tuple(vars))
 	body := t.seq(x.Body.List, sc.push().push(), lctx, "  ")
 	d.WriteString(body)
-	post := "id"
+	post := "_root_.id"
 	var pd strings.Builder
 	if x.Post != nil {
 		pctx := bctx{
@@ -1844,7 +1924,10 @@ func (t *bodyTr) rangeStmt(x *ast.RangeStmt, sc bscope, ctx bctx, ind string, re
 		return bad("range_assign")
 	}
 	xs := t.expr(x.X, sc, "")
-	el := map[string]string{"bytes": "byte", "list": "bytes"}[xs.Ty]
+	el := map[string]string{"bytes": "byte", "list": "bytes", "list2": "list"}[xs.Ty]
+	if strings.HasPrefix(xs.Ty, "olist:") {
+		el = "opaque:" + strings.TrimPrefix(xs.Ty, "olist:")
+	}
 	if el == "" {
 		return bad("range_operand")
 	}
@@ -1972,7 +2055,7 @@ func GenBody(spec *FnSpec) string {
 		t.recvName = fd.Recv.List[0].Names[0].Name
 	}
 	// names the rendering itself uses: a Go local of that name would capture them
-	for _, w := range strings.Fields("none some decide not id Go Gen Chan Cb Netconf List Int Nat Bool UInt8 Bytes Option " +
+	for _, w := range strings.Fields("none some decide not Go Gen Chan Cb Netconf List Int Nat Bool UInt8 Bytes Option " +
 		"isInfix hasPrefix trimPrefix trimSuffix trimSpace splitLF joinLF loopRet") {
 		t.reserved[w] = true
 	}
@@ -2007,6 +2090,12 @@ func GenBody(spec *FnSpec) string {
 		}
 		return true
 	})
+	for _, c := range spec.Captures {
+		delete(t.reserved, c)
+	}
+	if spec.Partial {
+		t.mayPanic = true
+	}
 	sc := bscope{depth: 1} // parameters and named results live in the scope of the function body
 	var binders []string
 	if t.hasFuel {
